@@ -103,6 +103,33 @@ func repeatMain(w *out.W, tier string) {
 			w.ImplOnly(id, fmt.Sprintf("%d in-process runs, sha256=%s len=%d", runs, sha(string(first))[:16], len(first)))
 		}
 	}
+	// (a') isolation: what an operation returned must not change when unrelated operations run
+	// afterwards (shared buffers, pooled state): the files a formatter returned are read again
+	// after the same formatter has formatted two other plans
+	for _, f := range formatters {
+		for v := 0; v < nVariants; v++ {
+			id := fmt.Sprintf("isolated-format-%s/%d", f.name, v)
+			p1, err1 := mkPlan(dialects[1+v%2], v, []string{"create", "modify", "drop"}[v%3])
+			p2, err2 := mkPlan(dialects[1+(v+1)%2], (v+1)%nVariants, "create")
+			p3, err3 := mkPlan(dialects[0], (v+2)%nVariants, "drop")
+			if err1 != nil || err2 != nil || err3 != nil {
+				continue
+			}
+			fs1, err := f.f.Format(p1)
+			if err != nil {
+				continue
+			}
+			snap := sha(string(filesBytes(fs1)))
+			f.f.Format(p2)
+			f.f.Format(p3)
+			after := sha(string(filesBytes(fs1)))
+			w.ImplOnly(id, "files re-read after two unrelated Format calls")
+			w.Count("isolation")
+			if snap != after {
+				w.Violation(id, "output-not-isolated", fmt.Sprintf("%s formatter, variant %d: the files returned by Format change after formatting two unrelated plans (shared state between calls)", f.name, v))
+			}
+		}
+	}
 	// (b) fresh processes
 	self, _ := os.Executable()
 	for p := 0; p < procs; p++ {
